@@ -103,7 +103,7 @@ func NewCoordinator(p *Plan) *Coordinator {
 	c.scratch = filepath.Join(os.TempDir(), fmt.Sprintf("verif-ee-%d", os.Getpid()))
 	os.RemoveAll(c.scratch)
 	os.MkdirAll(c.scratch, 0755)
-	c.pool = &kernel.Pool{Args: []string{"worker"}, Env: []string{"VERIF_EE_SCRATCH=" + c.scratch, "GOMAXPROCS=2"}, N: p.Workers, Timeout: 240 * time.Second}
+	c.pool = &kernel.Pool{Args: []string{"worker"}, Env: []string{"VERIF_EE_SCRATCH=" + c.scratch, "GOMAXPROCS=2", "GOTRACEBACK=single"}, N: p.Workers, Timeout: 240 * time.Second}
 	c.pool.Start()
 	c.start = time.Now()
 	c.deadline = c.start.Add(p.Budget)
@@ -427,7 +427,11 @@ func (c *Coordinator) explore(frontier []*stateNode, alpha map[string][]string, 
 		go func() {
 			defer wg.Done()
 			defer func() { <-sem }()
+			t0 := time.Now()
 			t.res, _ = c.runBatch(t.st, t.batch, false)
+			if os.Getenv("VERIF_EE_DEBUG") != "" {
+				fmt.Fprintf(os.Stderr, "task %s/%s prefix=%d first=%s n=%d took %.1fs (t=%.1f)\n", t.st.side, t.st.class, len(t.st.prefix), t.batch[0], len(t.batch), time.Since(t0).Seconds(), time.Since(c.start).Seconds())
+			}
 		}()
 	}
 	wg.Wait()
@@ -597,7 +601,7 @@ func (c *Coordinator) confirm(f *found) (ok bool, seq bool, note string) {
 				out := c.runUnit(&unitJob{u: uu, batch: batch})
 				hit := false
 				if f.died {
-					hit = out.died && out.diedAt == len(batch)-1 && Signature("died", mustDesc(batch[len(batch)-1]), orEmpty(f.req), deathCause(out.log)) == f.v.Signature
+					hit = out.died && out.diedAt == len(batch)-1 && Signature("died", mustDesc(batch[len(batch)-1]), builtOrEmpty(batch[len(batch)-1]), deathCause(out.log)) == f.v.Signature
 				} else if out.err == "" && !out.died {
 					for _, r := range out.results {
 						for _, v := range r.Viol {
@@ -640,21 +644,6 @@ func (c *Coordinator) confirm(f *found) (ok bool, seq bool, note string) {
 }
 
 func mustDesc(s string) Desc { d, _ := ParseDesc(s); return d }
-func orEmpty(r *Req) *Req {
-	if r == nil {
-		return &Req{}
-	}
-	// a request that came back over JSON has lost its raw bytes: restore them
-	if r.raw == nil {
-		if r.Body != nil {
-			r.raw, r.hasBody = []byte(*r.Body), true
-		} else if r.BodyB64 != nil {
-			r.raw, r.hasBody = []byte("\x00"), true
-		}
-	}
-	return r
-}
-
 func (c *Coordinator) finish(alphaFull, alphaRed map[string][]string) int {
 	p := c.plan
 	if c.harnessErr != "" {
@@ -870,7 +859,7 @@ func ReplayFile(path string) int {
 			fmt.Printf("  the worker process DIED while serving %s\n%s\n", rp.Path[out.diedAt], indent(tailS(out.log, 2500)))
 			hit = rp.Violation.Oracle == "died"
 			if hit {
-				fmt.Printf("VIOLATION property=%s replay=%s\n  oracle=died signature=%s\n", rp.Property, path, Signature("died", mustDesc(rp.Path[out.diedAt]), orEmptyFromCfg(rp), deathCause(out.log)))
+				fmt.Printf("VIOLATION property=%s replay=%s\n  oracle=died signature=%s\n", rp.Property, path, Signature("died", mustDesc(rp.Path[out.diedAt]), builtOrEmpty(rp.Path[out.diedAt]), deathCause(out.log)))
 			}
 		} else {
 			fmt.Println("harness error:", out.err)
@@ -893,11 +882,9 @@ func ReplayFile(path string) int {
 	return 0
 }
 
-func orEmptyFromCfg(rp *kernel.Replay) *Req {
-	var u Unit
-	json.Unmarshal(rp.Cfg, &u)
-	if len(u.Requests) > 0 {
-		return orEmpty(u.Requests[0])
+func builtOrEmpty(desc string) *Req {
+	if r, err := Build(mustDesc(desc), Facts{}); err == nil {
+		return r
 	}
 	return &Req{}
 }
